@@ -12,6 +12,7 @@ relation (`Below`) without fuel, re-rooting · 2 the registry loops `delAll`/`ad
 invariant `PInv` and `handleDuplicate` · 4 the tree invariant `CInv`, `addObject` · 5 `reparent`
 · 6 the property theorems.
 -/
+import PdModel.PostProcess
 import PdModel.Registry
 
 namespace Registry
@@ -2193,3 +2194,65 @@ example : ∃ s, Inv s ∧
 
 
 end Registry
+
+/-! ## `defaultPostProcess`: "subclass of" is the inverse of "resolved base of" -/
+namespace PostProcess
+
+/-- **subclasses_inverse** (C02): after post-processing, `c` is listed among the subclasses of `b`
+exactly when `b` is one of the resolved bases of `c` -/
+theorem subclasses_inverse (classes : List (Nat × List (Option Nat))) (b c : Nat) :
+    c ∈ subclasses classes b ↔ ∃ bases, (c, bases) ∈ classes ∧ some b ∈ bases := by
+  unfold subclasses
+  rw [List.mem_flatMap]
+  constructor
+  · rintro ⟨⟨c', bases⟩, hmem, hc⟩
+    rw [List.mem_map] at hc
+    obtain ⟨x, hx, rfl⟩ := hc
+    rw [List.mem_filter] at hx
+    have : x = some b := by simpa using hx.2
+    exact ⟨bases, hmem, this ▸ hx.1⟩
+  · rintro ⟨bases, hmem, hb⟩
+    refine ⟨(c, bases), hmem, ?_⟩
+    rw [List.mem_map]
+    exact ⟨some b, List.mem_filter.mpr ⟨hb, by simp⟩, rfl⟩
+
+/-- … once per occurrence of `b` in the base list, when every class is registered once -/
+theorem subclasses_count (classes : List (Nat × List (Option Nat))) (b c : Nat) (bases : List (Option Nat))
+    (hnd : (classes.map (·.1)).Nodup) (hmem : (c, bases) ∈ classes) :
+    (subclasses classes b).count c = bases.count (some b) := by
+  unfold subclasses
+  induction classes with
+  | nil => cases hmem
+  | cons hd tl ih =>
+    obtain ⟨c', bs'⟩ := hd
+    simp only [List.map_cons, List.nodup_cons] at hnd
+    simp only [List.flatMap_cons, List.count_append]
+    rcases List.mem_cons.mp hmem with e | e
+    · injection e with e1 e2
+      subst e1; subst e2
+      have h0 : (List.flatMap (fun x : Nat × List (Option Nat) => (x.2.filter (· == some b)).map fun _ => x.1) tl).count c = 0 := by
+        rw [List.count_eq_zero]
+        intro hc
+        rw [List.mem_flatMap] at hc
+        obtain ⟨⟨c2, bs2⟩, hm2, hc2⟩ := hc
+        rw [List.mem_map] at hc2
+        obtain ⟨_, _, rfl⟩ := hc2
+        exact hnd.1 (List.mem_map.mpr ⟨(c2, bs2), hm2, rfl⟩)
+      rw [h0, Nat.add_zero]
+      simp [List.count_eq_length_filter, List.filter_map, List.count, List.countP_eq_length_filter]
+    · have hne : c' ≠ c := by
+        intro e'
+        subst e'
+        exact hnd.1 (List.mem_map.mpr ⟨(c', bases), e, rfl⟩)
+      have h0 : ((bs'.filter (· == some b)).map fun _ => c').count c = 0 := by
+        rw [List.count_eq_zero]
+        intro hc
+        rw [List.mem_map] at hc
+        obtain ⟨_, _, e'⟩ := hc
+        exact hne e'
+      rw [h0, Nat.zero_add]
+      exact ih hnd.2 e
+
+example : subclasses [(0, []), (1, [some 0]), (2, [some 1, some 0]), (3, [none, some 0])] 0 = [1, 2, 3] := by decide
+
+end PostProcess
